@@ -531,3 +531,20 @@ func WithTimeout(d time.Duration, fn func()) bool {
 		return false
 	}
 }
+
+// FuzzFail is called by a native fuzz target (go test -fuzz, started by the driver in the thorough
+// tier) when its oracle fails: it stores the case in the replay-file layout under $VERIF_FUZZ_FAILDIR
+// so that the driver can turn the smallest one into a VIOLATION whose replay runs through TestCheck.
+func FuzzFail(property string, caseValue any, f *Failure) {
+	dir := os.Getenv("VERIF_FUZZ_FAILDIR")
+	if dir == "" || f == nil {
+		return
+	}
+	b, err := json.MarshalIndent(map[string]any{"property": property, "case": caseValue, "sig": f.Sig, "msg": f.Msg}, "", " ")
+	if err != nil {
+		return
+	}
+	sum := sha256.Sum256(b)
+	os.MkdirAll(dir, 0o755)
+	os.WriteFile(filepath.Join(dir, fmt.Sprintf("%s-fuzz-%s.json", property, hex.EncodeToString(sum[:4]))), b, 0o644)
+}
